@@ -268,8 +268,8 @@ Lemma vnat_inj i j : vnat i = vnat j -> i = j.
 Proof. unfold vnat, vint, inject_Z. intros H. injection H. lia. Qed.
 
 (** * C20_bijection, FiniteDomain *)
-Theorem finite_bijection vs : NoDup vs ->
-  let d := mk_finite Reiterable vs in
+Theorem finite_bijection k vs : NoDup vs ->
+  let d := mk_finite k vs in
   dom_size d = Some (length vs) /\
   (forall v, In v vs ->
      exists i, i < length vs /\ dom_numberize d v = Ok (vnat i) /\ dom_denumberize d (vnat i) = Ok v) /\
@@ -327,22 +327,28 @@ Proof.
   - apply py_index_out; auto.
 Qed.
 
-(** contains, size, denumberize do not depend on how the argument iterates; only the index does *)
-Theorem finite_oneshot_rest vs :
-  let d := mk_finite OneShot vs in let d' := mk_finite Reiterable vs in
-  dom_size d = dom_size d' /\ (forall v, dom_contains d v = dom_contains d' v) /\
-  (forall n, dom_denumberize d n = dom_denumberize d' n) /\ dom_eqb d d' = true.
-Proof.
-  cbn. repeat split; auto. apply (list_eqb_eq value_eqb value_eqb_eq). reflexivity.
-Qed.
-
-(** F15: built from a one-shot iterator the index is empty, so numberize fails on every value *)
-Theorem finite_oneshot_numberize vs v : dom_numberize (mk_finite OneShot vs) v = Err KeyErr.
+(** the kind of iterable the values are given as (list, tuple, dict, range -- or a one-shot
+    iterator / generator) makes no difference: the same object is built *)
+Theorem finite_iterkind_irrelevant k k' vs : mk_finite k vs = mk_finite k' vs.
 Proof. reflexivity. Qed.
 
-Theorem bijection_refuted_oneshot :
+(** in particular the bijection statement holds for a one-shot iterator *)
+Corollary finite_bijection_oneshot vs v : NoDup vs -> In v vs ->
+  exists i, i < length vs /\ dom_numberize (mk_finite OneShot vs) v = Ok (vnat i)
+            /\ dom_denumberize (mk_finite OneShot vs) (vnat i) = Ok v.
+Proof. intros Hnd Hin. apply (finite_bijection OneShot vs Hnd); auto. Qed.
+
+(** Record of F15 (repaired in /repo 7d2f845): the constructor used to build the index from its
+    argument a second time, i.e. from nothing for a one-shot iterator. *)
+Definition mk_finite_old (k : iterkind) (items : list value) : domain :=
+  DFinite items (build_index (match k with Reiterable => items | OneShot => [] end)).
+
+Theorem finite_oneshot_numberize_old vs v : dom_numberize (mk_finite_old OneShot vs) v = Err KeyErr.
+Proof. reflexivity. Qed.
+
+Theorem bijection_refuted_oneshot_old :
   ~ (forall k vs, NoDup vs -> forall v, In v vs ->
-       exists i, dom_numberize (mk_finite k vs) v = Ok (vnat i)).
+       exists i, dom_numberize (mk_finite_old k vs) v = Ok (vnat i)).
 Proof.
   intros H.
   assert (Hnd : NoDup [VOther 0]) by (apply nodupv_NoDup; reflexivity).
